@@ -1,5 +1,7 @@
 import PytypeModel.Proofs.SolverWF
 import PytypeModel.Proofs.SolverBfs
+import PytypeModel.Proofs.SolverExpl
+import PytypeModel.Proofs.SolverSubset
 import PytypeModel.Typegraph.Program
 
 /-! # C07 — the typegraph solver decides binding visibility correctly
@@ -64,6 +66,56 @@ theorem spec_unfold (g : Graph) (rank : NodeId → Nat) (hwf : g.WF) (hac : g.Ac
   unfold spec recall
   simp only [Memo.find]
 
+/-- **`remove_finished_goals` computes exactly the declarative `Removal` relation** (every graph; the fuel
+bound `travFuel = (B+1)² + 1` is proved sufficient) for an id-ordered goal set of valid ids. -/
+theorem remove_finished_goals_iff (g : Graph) (hids : g.IdsOK) (pos : NodeId) (goals : List BId)
+    (hs : Sorted goals) (hb : ∀ x ∈ goals, x < g.bindings.length) (R N : List BId) :
+    (R, N) ∈ removeFinishedGoals g pos goals ↔
+      Removal g pos (hereGoals g pos goals) [] [] (awayGoals g pos goals) R N :=
+  removeFinishedGoals_iff g hids pos goals hs hb R N
+
+/-- **memo-free recursion ⇔ explanation**: on a well-formed acyclic graph without node conditions the
+value of a solver state is `true` exactly when its goal set is explained at its node (`Expl`: goals
+originating here replaced by one of their source sets, no two removed goals on one variable, then a
+backward path on which no variable of the remaining goals is re-bound to an origin of one of them). -/
+theorem spec_iff_expl (g : Graph) (rank : NodeId → Nat) (hwf : g.WF) (hac : g.AcyclicBy rank)
+    (hnc : g.NoConditions) (hids : g.IdsOK) (st : SState) (hs : Sorted st.goals)
+    (hb : ∀ x ∈ st.goals, x < g.bindings.length) :
+    spec g rank st = true ↔ Expl g st.pos st.goals :=
+  PytypeModel.Typegraph.spec_iff_expl hwf hac hnc hids (rank st.pos) st rfl hs hb
+
+/-- **`HasCombination` ⇔ explanation** on well-formed acyclic unconditioned graphs (fresh solver): the
+combination is accepted iff it is explained and, for two or more goals (the `CanHaveSolution`
+pre-pass), every single goal is explained on its own. -/
+theorem solve_iff_expl_partial (g : Graph) (rank : NodeId → Nat) (hwf : g.WF) (hac : g.AcyclicBy rank)
+    (hnc : g.NoConditions) (hids : g.IdsOK) (n : NodeId) (attrs : List BId)
+    (hb : ∀ x ∈ attrs, x < g.bindings.length) :
+    (solve g [] n attrs).1 = true ↔
+      (attrs.length > 1 → ∀ b ∈ attrs, Expl g n [b]) ∧ Expl g n (ofList attrs) :=
+  solve_iff_expl_prepass hwf hac hnc hids n attrs hb
+
+/-- **`HasCombination` ⇔ explanation — the exactness clause of C07**: on every well-formed acyclic typegraph
+without node conditions (ids valid), a fresh solver accepts a set of bindings at a node exactly when some
+backward path explains it.  (`g.WF` holds of every graph built through the API, `built_graph_wf`.) -/
+theorem solve_iff_expl (g : Graph) (rank : NodeId → Nat) (hwf : g.WF) (hac : g.AcyclicBy rank)
+    (hnc : g.NoConditions) (hids : g.IdsOK) (n : NodeId) (attrs : List BId)
+    (hb : ∀ x ∈ attrs, x < g.bindings.length) :
+    (solve g [] n attrs).1 = true ↔ Expl g n (ofList attrs) :=
+  solve_iff_expl_full hwf hac hnc hids n attrs hb
+
+/-- **every subset of an accepted combination is accepted** (well-formed acyclic unconditioned graphs) -/
+theorem solve_subset (g : Graph) (rank : NodeId → Nat) (hwf : g.WF) (hac : g.AcyclicBy rank)
+    (hnc : g.NoConditions) (hids : g.IdsOK) (n : NodeId) (attrs sub : List BId)
+    (hb : ∀ x ∈ attrs, x < g.bindings.length) (hsub : ∀ x ∈ sub, x ∈ attrs)
+    (h : (solve g [] n attrs).1 = true) : (solve g [] n sub).1 = true :=
+  solve_subset_acyclic hwf hac hnc hids n attrs sub hb hsub h
+
+/-- explanations are subset-closed (every well-formed graph with valid ids, cycles and conditions allowed) -/
+theorem expl_subset_closed (g : Graph) (hwf : g.WF) (hids : g.IdsOK) (n : NodeId) (G G' : List BId)
+    (h : Expl g n G) (hs : Sorted G') (hb : ∀ x ∈ G', x < g.bindings.length) (hsub : ∀ x ∈ G', x ∈ G) :
+    Expl g n G' :=
+  expl_subset hwf hids h G' hs hb hsub
+
 /-- the path finder only reports paths that exist: `FindNodeBackwards(start, finish, blocked).path_exists`
 implies `finish` is backward reachable from `start`, and so is every condition node it reports (all graphs). -/
 theorem find_node_backwards_sound (g : Graph) (start fin : NodeId) (blocked : List NodeId)
@@ -114,14 +166,14 @@ theorem solve_goals_reachable_not_full :
   rw [provisional_witness.2.2] at ho
   exact absurd ho (List.not_mem_nil)
 
-/-! ### statements not (yet) proved
+/-! ### statements not proved
 
--- OPEN  solve_iff_expl : g.WF → g.AcyclicBy rank → g.NoConditions → ((solve g [] n G).1 = true ↔ Expl g n (ofList G))
---       (proved so far: solve = the memo-free recursion `solveVal`/`stepVal`; missing: `stepVal ↔ Expl`, i.e.
---        `trav` ↔ `Removal` and completeness of the BFS w.r.t. `ClearPath`)
--- OPEN  solve_subset   : g.WF → g.Acyclic → g.NoConditions → (solve g [] n G).1 = true → G' ⊆ G → (solve g [] n G').1 = true
--- OPEN  solve_complete_cond : g.Acyclic → ExplCond g n G → (solve g [] n G).1 = true
-These are covered by the search stage's independent path-enumerating reference on the real answers only. -/
+-- OPEN  solve_subset_full (all graphs): false on cyclic conditioned graphs (known finding
+--       c07-provisional-true-subset, replayed by the check); not proved for cyclic unconditioned graphs.
+-- OPEN  solve_complete_cond : g.WF → g.AcyclicBy rank → ExplCond g n G → (solve g [] n G).1 = true
+--       ("with conditions the solver never rejects a combination that has an explaining path"); no theorem —
+--       the clause is evaluated only by the search stage's independent reference (harness/tgref.py).
+-- OPEN  IdsOK is preserved by every well-formed history (it is a hypothesis, checkable by `Graph.idsOKB`). -/
 
 /-! ### non-vacuity -/
 
@@ -143,6 +195,54 @@ theorem demo_noConditions : demoGraph.NoConditions :=
 
 example : GoalReachable demoGraph 2 1 :=
   solve_goals_reachable_fresh demoGraph demo_noConditions 2 [0, 1] (by decide +kernel) 1 (by simp)
+
+/-- an acyclic unconditioned graph `0 → 1 → 2` (`a` at 0; `b` at 1 from `{a}`; `c`, a second binding of `b`'s
+variable, also at 1): all hypotheses of `solve_iff_expl_partial` hold; `{a,b}` is explained at 2; `{b,c}` is
+not, although `b` and `c` are each explained on their own. -/
+def chainOps : List Op := [
+  .newNode none, .connectNew 0 none, .connectNew 1 none,
+  .newVar, .addBinding 0 0 (some ([], 0)), .newVar, .addBinding 1 1 (some ([0], 1)),
+  .addBinding 1 7 (some ([], 1))]
+
+def chainGraph : Graph := ((PState.init []).run chainOps).g
+
+set_option maxRecDepth 100000 in
+theorem chain_facts : wfHistory (PState.init []) chainOps = true ∧ chainGraph.wfB = true ∧
+    chainGraph.forwardB = true ∧ chainGraph.idsOKB = true ∧
+    chainGraph.nodes.all (fun nd => nd.condition.isNone) = true ∧ chainGraph.bindings.length = 3 ∧
+    (solve chainGraph [] 2 [0, 1]).1 = true ∧ (solve chainGraph [] 2 [1, 2]).1 = false ∧
+    (solve chainGraph [] 2 [1]).1 = true ∧ (solve chainGraph [] 2 [2]).1 = true := by
+  decide +kernel
+
+theorem chain_iff (attrs : List BId) (hb : ∀ x ∈ attrs, x < 3) :
+    (solve chainGraph [] 2 attrs).1 = true ↔
+      (attrs.length > 1 → ∀ b ∈ attrs, Expl chainGraph 2 [b]) ∧ Expl chainGraph 2 (ofList attrs) :=
+  solve_iff_expl_partial chainGraph _ (Graph.wf_of_wfB _ chain_facts.2.1)
+    (Graph.acyclicBy_of_forwardB _ chain_facts.2.2.1) (Graph.noConditions_of_all _ chain_facts.2.2.2.2.1)
+    (Graph.idsOK_of_idsOKB _ chain_facts.2.2.2.1) 2 attrs
+    (fun x hx => chain_facts.2.2.2.2.2.1 ▸ hb x hx)
+
+example : Expl chainGraph 2 (ofList [0, 1]) :=
+  ((chain_iff [0, 1] (by decide)).1 chain_facts.2.2.2.2.2.2.1).2
+
+-- `solve_iff_expl` and `solve_subset` apply to it: {a,b} accepted at 2, hence {b} accepted at 2
+example : (solve chainGraph [] 2 [1]).1 = true :=
+  solve_subset chainGraph _ (Graph.wf_of_wfB _ chain_facts.2.1)
+    (Graph.acyclicBy_of_forwardB _ chain_facts.2.2.1) (Graph.noConditions_of_all _ chain_facts.2.2.2.2.1)
+    (Graph.idsOK_of_idsOKB _ chain_facts.2.2.2.1) 2 [0, 1] [1]
+    (fun x hx => chain_facts.2.2.2.2.2.1 ▸ (by simp at hx; rcases hx with rfl | rfl <;> decide))
+    (by simp) chain_facts.2.2.2.2.2.2.1
+
+example : ¬ Expl chainGraph 2 (ofList [1, 2]) := fun h =>
+  absurd ((solve_iff_expl chainGraph _ (Graph.wf_of_wfB _ chain_facts.2.1)
+    (Graph.acyclicBy_of_forwardB _ chain_facts.2.2.1) (Graph.noConditions_of_all _ chain_facts.2.2.2.2.1)
+    (Graph.idsOK_of_idsOKB _ chain_facts.2.2.2.1) 2 [1, 2]
+    (fun x hx => chain_facts.2.2.2.2.2.1 ▸ (by simp at hx; rcases hx with rfl | rfl <;> decide))).2 h)
+    (by rw [chain_facts.2.2.2.2.2.2.2.1]; simp)
+
+example : ¬ ((∀ b ∈ [1, 2], Expl chainGraph 2 [b]) ∧ Expl chainGraph 2 (ofList [1, 2])) := fun h =>
+  absurd ((chain_iff [1, 2] (by decide)).2 ⟨fun _ => h.1, h.2⟩)
+    (by rw [chain_facts.2.2.2.2.2.2.2.1]; simp)
 
 -- a rejected combination: two bindings of one variable
 set_option maxRecDepth 100000 in
